@@ -295,8 +295,7 @@ def transpose2d(op, input):
     out_scale = input._scale
     out_axis = input.axis
     # Manually reverse size and stride because we cannot trust the out_data shape
-    dim0, dim1 = input.size()
-    out_size = torch.Size([dim1, dim0])
+    out_size = torch.Size(input.size()[::-1])
     out_stride = input.stride()[::-1]
     if input.axis is not None:
         # We need to transpose also the scale
